@@ -15,7 +15,9 @@ Starts == {{"pw"}, {"pw", "totp"}}
 \*     certificate (that principal proves ITS factor) and the user's start cookie riding along
 \* totp_other_twocookies / botp_other_twocookies: ANOTHER user completes HIS factor with his own session cookie, and the
 \*     user's start cookie is sent in the same request under the same name, before it
-Vias == {"none", "clisend_oldtoken", "totp_rolecert_other", "botp_rolecert_other", "totp_other_twocookies", "botp_other_twocookies"}
+\* u2f_lost_token / webauthn_lost_token: the user's own hardware token that was DISABLED (lost) answers the sign-in challenge
+Vias == {"none", "clisend_oldtoken", "totp_rolecert_other", "botp_rolecert_other", "totp_other_twocookies", "botp_other_twocookies",
+         "u2f_lost_token", "webauthn_lost_token"}
 WebUIs == {"pw", "u2f"}
 
 \* the web-UI level is met by the start session
